@@ -703,7 +703,14 @@ func (x *Unit) spCall(st *State, e *ast.CallExpr, c *specCtx) Val {
 		return Val{IfaceTyp(arg(0).T), intT}
 	case "elemtype":
 		// elemtype(c): the dynamic type of the elements of container c (sync.Pool, sync.Map), see pooltype
-		return Val{x.uf("pooltype", SInt, arg(0).T), intT}
+		pv := arg(0)
+		if pv.Sort != SInt {
+			// a container held by value is identified by its address, as at the Get/Put call sites
+			if lv := x.specLV(st, e.Args[0], c); lv != nil {
+				pv = Val{x.interiorAddr(st, lv, e), intT}
+			}
+		}
+		return Val{x.uf("pooltype", SInt, pv.T), intT}
 	case "once":
 		lv := x.specLV(st, e.Args[0], c)
 		if lv == nil {
@@ -966,6 +973,33 @@ func resolveTypeIn(e ast.Expr, pkg *types.Package) types.Type {
 			return types.NewChan(types.SendRecv, t)
 		}
 	case *ast.FuncType:
+		// func(T1, T2) (R1, R2): parameter and result types are resolved so that typeis can tell constructor shapes apart;
+		// a part that does not resolve falls back to the shapeless signature (as before)
+		tuple := func(fl *ast.FieldList) (*types.Tuple, bool) {
+			if fl == nil {
+				return nil, true
+			}
+			var vs []*types.Var
+			for _, f := range fl.List {
+				t := resolveTypeIn(f.Type, pkg)
+				if t == nil {
+					return nil, false
+				}
+				n := len(f.Names)
+				if n == 0 {
+					n = 1
+				}
+				for i := 0; i < n; i++ {
+					vs = append(vs, types.NewVar(token.NoPos, nil, "", t))
+				}
+			}
+			return types.NewTuple(vs...), true
+		}
+		ps, ok1 := tuple(e.Params)
+		rs, ok2 := tuple(e.Results)
+		if ok1 && ok2 {
+			return types.NewSignatureType(nil, nil, nil, ps, rs, false)
+		}
 		return types.NewSignatureType(nil, nil, nil, nil, nil, false)
 	}
 	return nil
